@@ -14,7 +14,7 @@ func init() {
 		Explanation: "Decides the refusal clauses of abbreviated-ID resolution, not agreement with git rev-parse on every expression: (ambiguous-abbreviation-refused) in Repository.ResolveRevision the loop over the candidates of an abbreviated object ID " +
 			"contains a rejecting return guarded by an inequality of the hashes of two commits (the commit already chosen and the one a further candidate names), so an abbreviation naming several commits is refused rather than resolved to the first; " +
 			"(minimum-abbreviation) resolveHashPrefix yields no candidate for fewer than four hex digits (git's MINIMUM_ABBREV); (id-before-ref) the candidates of the abbreviated ID are appended before the hash of a reference with the same name, " +
-			"and an unresolvable name ends in ErrReferenceNotFound; the revision parser package keeps no package-level state. Not decided: ~, ^, ^{/regex} navigation, reflog syntax, disambiguation by object type beyond 'names a commit'.",
+			"and an unresolvable name ends in ErrReferenceNotFound; (last-digit-checked) resolveHashPrefix returns the candidates found for the whole bytes of a prefix unfiltered only on paths where the prefix is known to have an even number of digits, so the last digit of an odd-length abbreviation is always compared; the revision parser package keeps no package-level state. Not decided: ~, ^, ^{/regex} navigation, reflog syntax, disambiguation by object type beyond 'names a commit'.",
 		Assumptions: []string{},
 		Run:         runC47,
 	})
